@@ -7,6 +7,28 @@ VERIF = Path(__file__).resolve().parent.parent
 HOOK_COMMITS: list[str] = []
 
 CLAIMED = {
+    "C01": dict(
+        category="model_checking",
+        text=("Bounded-exhaustive spec->code: TLC enumerates every string '\"'+w over a 12-symbol escape alphabet (|w|<=4 quick, <=6 thorough) and all "
+              "strings over three 16-symbol lexical alphabets with the specification's verdict from Lexical.tla; the real lexer and graphql_sync must "
+              "raise nothing but GraphQLSyntaxError on each. Code->spec: truncation/substitution sweeps through the five parse entry points (nesting 1..100) "
+              "and a seeded pipeline sweep (sources x variables x operation names x resolvers raising/returning 19 exception classes, sync and async) whose "
+              "formatted results TLC evaluates against Pipeline.tla's WellFormedResult (response-format section 7.1)."),
+        design_ref="DESIGN.md 5/C01",
+        note="Trusted: Lexical.tla/Pipeline.tla transcriptions; 'any class' = Exception subclasses; RecursionError beyond nesting 100 excluded.",
+        technique="TLC enumeration of LexEnum.tla (spec->code) + TLC evaluation of recorded results against Pipeline.tla (code->spec)",
+    ),
+    "C09": dict(
+        category="model_checking",
+        text=("TLC checks the grammar theorems (spans disjoint/ordered with ignored gaps, filler insertion at every boundary invisible, Strip laws) on every string "
+              "of length <=4 (quick) / <=5 (thorough) over three 16-symbol alphabets and emits the specification's token stream; the real lexer's kinds, spans and "
+              "values are compared for each, and real strip_ignored_characters outputs are validated by TLC. For generated/mutated full-grammar documents TLC "
+              "re-lexes the recorded source and compares tokens, token count and strip output; AST invariance under filler insertion at every boundary, strip "
+              "idempotence, rejection preservation and the token-limit equivalence are checked on the real parser."),
+        design_ref="DESIGN.md 5/C09",
+        note="Trusted: Lexical.tla as the reading of the lexical grammar; class representatives stand for character classes; error offsets are drift only.",
+        technique="TLC model checking of lexical-grammar theorems + enumeration (spec->code) + TLC evaluation of recorded tokens/strip outputs (code->spec)",
+    ),
     "C10": dict(
         category="model_checking",
         text=("Bounded-exhaustive: TLC enumerates every string over a 10-symbol location alphabet (LF, CR, FF, NEL, LS, ...) "
